@@ -311,6 +311,18 @@ def gen_ctime_spec(rng, spec):
     f = dict(w, wd=model.weekday("gregorian", dn))
     spec.update(src="arg", notation=n, written=w, text=cm.render_ctime(f),
                 ctime=True)
+    if rng.random() < 0.4:
+        # Unix `date` text; printed back it loses its zone name (the standard
+        # library's %Z of a naive datetime), so it is only judged together
+        # with an ISO-style print format
+        n2 = gen_notation(rng, allow_reduced=False)
+        if n2["zone"] == "hh":
+            n2["zone"] = "hhmm"
+        if n2["time"] in ("hms_dec", "hm_dec", "h_dec"):
+            n2["time"] = "hms"
+        n2["ystyle"] = "ccyy"
+        spec["text"] = cm.render_unix_date(f)
+        spec["pf"] = {"notation": n2, "text": notation_format(n2)}
     spec["offsets"] = [o for o in [gen_offset(rng, "hms", False)
                                    for _ in range(rng.choice([0, 1, 1, 2]))]
                        if abs(o["us"]) <= 900 * cm.UNIT_US["D"]]
@@ -366,10 +378,13 @@ def assemble(rng, items, option_groups):
 def common_options(rng, spec, env):
     groups = []
     if spec.get("utc"):
-        groups.append([rng.choice(["--utc", "-u"])])
+        # (argparse also accepts unambiguous prefixes of long options)
+        groups.append([rng.choice(["--utc", "-u", "--utc", "--ut"])])
     if spec.get("cal"):
         groups.append(rng.choice([["--calendar", spec["cal"]],
-                                  ["--calendar=" + spec["cal"]]]))
+                                  ["--calendar=" + spec["cal"]],
+                                  ["--cal", spec["cal"]],
+                                  ["--calen=" + spec["cal"]]]))
     return groups
 
 
@@ -405,7 +420,8 @@ def gen_invocation(rng, world_state):
         spec["flags"] = flags
         if spec.get("pf"):
             txt = spec["pf"].get("text") or spec["pf"]["strf"]
-            name = rng.choice(["--print-format", "--format", "-f"])
+            name = rng.choice(["--print-format", "--format", "-f",
+                               "--print", "--form"])
             groups.append(["%s=%s" % (name, txt)] if name.startswith("--")
                           and rng.random() < 0.5 else [name, txt])
         if spec.get("pfmt"):
@@ -858,10 +874,16 @@ class Sim(object):
             return outs
         n, w = spec["notation"], spec["written"]
         if spec.get("ctime"):
-            if model.BASE[mode] != "gregorian" or pf is not None:
+            if model.BASE[mode] != "gregorian":
                 return None
             t_us = cm.written_instant_us(w, mode, 0)
-            text = cm.render_ctime(cm.civil_fields(mode, t_us + total, 0))
+            f = cm.civil_fields(mode, t_us + total, 0)
+            if pf is None:
+                text = cm.render_ctime(f)
+            elif "notation" in pf:
+                text = cm.render(pf["notation"], f, 0)
+            else:
+                return None
             return {text if text is not None else "REFUSE"}
         if not cm.written_valid(w, mode):
             return {"REFUSE"}
